@@ -32,12 +32,35 @@ def main(argv=None):
         print(f"ANALYSIS-ERROR property={pid} no rule set implemented")
         return 2
     code = run_property(pid, a.tier, a.repo, mod.run, getattr(mod, "TITLE", ""), a.only)
-    if a.tier == "thorough" and hasattr(mod, "thorough_extra"):
+    if a.tier == "thorough" and not os.environ.get("QV_NO_EVIDENCE") and not a.only:
         try:
-            mod.thorough_extra(pid, a.repo)
+            selftest_into_evidence(pid, a.repo)
         except Exception as e:  # corpus results never change the verdict
             print(f"[{pid}] self-test corpus skipped: {type(e).__name__}: {e}")
     return code
+
+
+def selftest_into_evidence(pid, repo):
+    """Thorough tier: run the mutation corpus of this property on scratch copies and record the outcome in the evidence.
+    The corpus says something about the checker, not about quanto: it never changes the exit status."""
+    import subprocess
+    import tempfile
+
+    here = os.path.dirname(os.path.dirname(os.path.abspath(__file__)))
+    with tempfile.TemporaryDirectory(prefix="qvself_") as tmp:
+        out = os.path.join(tmp, "r.json")
+        subprocess.run([sys.executable, os.path.join(here, "tools", "selftest.py"), "--prop", pid, "--repo", repo, "-j", "16", "--json", out], capture_output=True, text=True, timeout=3000)
+        res = json.load(open(out))
+    ev_path = os.path.join(here, "evidence", f"{pid}.json")
+    ev = json.load(open(ev_path))
+    ev["coverage"]["selftest"] = {
+        "mutants_detected": res["mutants_detected"], "mutants_total": res["mutants_total"],
+        "refactors_silent": res["refactors_silent"], "refactors_total": res["refactors_total"],
+        "not_detected": [r for r in res["results"] if r["status"] not in ("DETECTED", "SILENT")],
+        "what": "edits of selftest/corpus_*.py applied to scratch copies of the package (tempfile, deleted at once); 'break' edits must be reported, behaviour-preserving 'refactor' edits must stay silent",
+    }
+    json.dump(ev, open(ev_path, "w"), indent=1, default=str)
+    print(f"[{pid}] self-test corpus: mutants_detected={res['mutants_detected']}/{res['mutants_total']} refactors_silent={res['refactors_silent']}/{res['refactors_total']}")
 
 
 if __name__ == "__main__":
